@@ -214,6 +214,14 @@ def r4b(prog, rep, config):
                 for c in g.calls:
                     if (OUTPUT_CALL.search(c.decl) or OUTPUT_CALL.search(c.callee)) and any(a in t for a in c.arg_locals()):
                         flows = True
+                    # ... or is walked by an adaptor whose closure writes each element (`errors.iter().try_for_each(|e| writeln!(..e..))`)
+                    if c.decl.startswith('std::iter::') and c.args and c.arg_local(0) in t:
+                        for a in c.args[1:]:
+                            cl = mir._closure_fn_of(prog, g, a)
+                            if cl is not None:
+                                t2 = mir.forward_taint(cl, set(range(2, cl.argc + 1)))
+                                if any((OUTPUT_CALL.search(x.decl) or OUTPUT_CALL.search(x.callee)) and any(al in t2 for al in x.arg_locals()) for x in cl.calls):
+                                    flows = True
                     # ... or is handed to a crate-local helper whose parameter reaches an output call
                     h = prog.resolve(c.callee, g.crate)
                     if h is not None and h.name in group:
